@@ -29,7 +29,7 @@ static J case_json(const Case& c) {
 	if (c.file) j.set("src", "file").set("file", c.fname).set("shape", c.shapeIdx);
 	else
 		j.set("src", "built").set("kind", kind_id(c.spec.kind)).set("game", game_name(c.spec.game)).set("skinned", c.spec.skinned)
-			.set("locked", c.spec.locked).set("eye", c.spec.eye).set("origin", c.reloaded ? "reloaded" : "api").set("V", c.V).set("mask", (int) c.mask);
+			.set("locked", c.spec.locked).set("eye", c.spec.eye).set("partflags", c.spec.partflags).set("origin", c.reloaded ? "reloaded" : "api").set("V", c.V).set("mask", (int) c.mask);
 	J d = J::arr();
 	for (auto& s : c.dels) d.push(ints_json(s));
 	j.set("dels", d);
@@ -43,6 +43,7 @@ static bool case_from_json(const J& j, Case& c) {
 		c.spec.skinned = j["skinned"].b;
 		c.spec.locked = j["locked"].b;
 		c.spec.eye = j["eye"].b;
+		if (j.has("partflags")) c.spec.partflags = (int) j["partflags"].i64();
 		c.reloaded = j["origin"].str() == "reloaded";
 		c.V = (int) j["V"].i64();
 		c.mask = (uint32_t) j["mask"].i64();
@@ -216,6 +217,25 @@ static uint64_t run_case(const Case& c, Base& base, Stats& st) {
 			static const std::vector<std::string> none;
 			auto it = s1.attr.find(kv.first);
 			const auto& got = it == s1.attr.end() ? none : it->second;
+			if (kv.first == "partrows") {
+				// a partition left without triangles may go, and with it the rows of its vertices; every row that is still
+				// there must be the vertex's own old row (same weights, same bone slots), in the old partition order
+				const size_t RW = 1 + sizeof(VertexWeight) + sizeof(BoneIndices);
+				bool same_parts = s1.nparts == s0.nparts;
+				for (size_t j = 0; j < keep.size(); j++) {
+					const std::string& was = kv.second[keep[j]];
+					std::string now = j < got.size() ? got[j] : std::string();
+					bool ok = same_parts ? now == was : true;
+					size_t pos = 0;
+					for (size_t r = 0; ok && r + RW <= now.size(); r += RW) {
+						size_t f = std::string::npos;
+						for (size_t q = pos; q + RW <= was.size(); q += RW) if (was.compare(q, RW, now, r, RW) == 0) { f = q; break; }
+						if (f == std::string::npos) ok = false; else pos = f + RW;
+					}
+					if (!ok) { V(key, vf::strf("partition rows of remaining vertex %zu (originally %u) changed: %s -> %s", j, keep[j], vf::hexbytes(was, 48).c_str(), vf::hexbytes(now, 48).c_str())); break; }
+				}
+				continue;
+			}
 			if (got.size() != keep.size()) { V(key, vf::strf("%s: %zu entries for %zu remaining vertices", kv.first.c_str(), got.size(), keep.size())); continue; }
 			for (size_t j = 0; j < keep.size(); j++)
 				if (got[j] != kv.second[keep[j]]) {
@@ -311,6 +331,9 @@ static std::vector<Spec> all_specs() {
 				s.kind = k; s.game = g; s.skinned = sk; s.locked = lk;
 				finish_spec(s);
 				v.push_back(s);
+				// partitions that keep only one of the two per-vertex tables (unlocked variants only)
+				if (sk && !lk && (k == K_TRISHAPE || k == K_BSTRI) && g != G_FO4)
+					for (int pf = 1; pf <= 2; pf++) { Spec s2 = s; s2.partflags = pf; v.push_back(s2); }
 			}
 	};
 	for (Game g : {G_OB, G_FO3, G_SK}) { add(K_TRISHAPE, g); add(K_TRISTRIPS, g); }
